@@ -96,24 +96,22 @@ theorem lands_on_start_residue {α : Type} (p : α → Bool) (b r start : Nat) (
 theorem lands_on_start_none {α : Type} (p : α → Bool) (start : Nat) (data : List α) :
     (dropRes p (start - 1) data).filter p = (data.filter p).drop (start - 1) := filter_dropRes p _ _
 
-/-- (1, the part the code guarantees) if a scan ends with `rpl = p > 0`, every line followed by another terminated line of the
-    same record has exactly `p` residues.
-    FULL STATEMENT NOT PROVABLE: last / only / unterminated lines longer than `p` are not detected, see below. -/
-theorem bplrpl_sound_partial (pre post : List Ev) (b1 r1 b2 r2 : Int) (p : Int)
-    (hpre : pre ≠ []) (hr1 : r1 ≥ 0) (hp : p > 0)
-    (h : (run {} (pre ++ [Ev.eol b1 r1, Ev.eol b2 r2] ++ post)).rpl = p) : r1 = p :=
-  checked_lines_have_rpl pre post b1 r1 b2 r2 {} p hpre hr1 hp h
+/-- regression (known finding retired by 283ccd7; witness `>A\nACGT\nAC\n>B\nACGTAC\n`): the single line of record B has 6 residues; the tracker
+    used to end with rpl = 4, bpl = 5, it now invalidates both -/
+theorem bplrpl_single_line_invalidates :
+    (run {} (events [[(5, 4), (3, 2)], [(7, 6)]])).rpl = 0 ∧ (run {} (events [[(5, 4), (3, 2)], [(7, 6)]])).bpl = 0 := by decide
 
-/-- counter-example 1 (witness `>A\nACGT\nAC\n>B\nACGTAC\n`): the single line of record B has 6 residues, the tracker ends with rpl = 4, bpl = 5 -/
-theorem bplrpl_unsound_single_line :
-    (run {} (events [[(5, 4), (3, 2)], [(7, 6)]])).rpl = 4 ∧ (run {} (events [[(5, 4), (3, 2)], [(7, 6)]])).bpl = 5 := by decide
+/-- regression (witness `>A\nAC\nACGT\n`): the line at whose end rpl is initialised is longer than rpl: invalidated -/
+theorem bplrpl_at_init_invalidates :
+    (run {} (events [[(3, 2), (5, 4)]])).rpl = 0 ∧ (run {} (events [[(3, 2), (5, 4)]])).bpl = 0 := by decide
 
-/-- counter-example 2 (witness `>A\nAC\nACGT\n`): the line at whose end rpl is initialised is longer than rpl -/
-theorem bplrpl_unsound_at_init :
-    (run {} (events [[(3, 2), (5, 4)]])).rpl = 2 ∧ (run {} (events [[(3, 2), (5, 4)]])).bpl = 3 := by decide
+/-- regression (witness `>A\nACGT\nACGT\nACGTAC`, no final newline): an unterminated longer last line invalidates -/
+theorem bplrpl_unterminated_invalidates :
+    (run {} ([Ev.hdr, Ev.eol 5 4, Ev.eol 5 4, Ev.stop 6 6])).rpl = 0 ∧ (run {} ([Ev.hdr, Ev.eol 5 4, Ev.eol 5 4, Ev.stop 6 6])).bpl = 0 := by decide
 
-/-- non-vacuity of `bplrpl_sound_partial`: a clean three-line record ends with rpl = 4 -/
-example : (run {} ([Ev.hdr] ++ [Ev.eol 5 4, Ev.eol 5 4] ++ [Ev.eol 3 2])).rpl = 4 := by decide
+/-- a clean three-line record ends with rpl = 4, bpl = 5 -/
+example : (run {} ([Ev.hdr] ++ [Ev.eol 5 4, Ev.eol 5 4] ++ [Ev.eol 3 2])).rpl = 4 ∧
+          (run {} ([Ev.hdr] ++ [Ev.eol 5 4, Ev.eol 5 4] ++ [Ev.eol 3 2])).bpl = 5 := by decide
 
 /-- non-vacuity of `lands_on_start_line`: two complete lines `AC␣\n`-like (b = 3, r = 2), start = 5 -/
 example : FullLines (fun c : Nat => c != 0) 3 2 [[1, 1, 0], [1, 1, 0]] ∧ [[1, 1, 0], [1, 1, 0]].length = (5 - 1) / 2 := by
@@ -279,29 +277,29 @@ theorem afetch_scan_offsets (rs : List SRec) (trail : List TLine) (h : ∀ r ∈
     scanDb (dbBytes rs trail) = some ((entries 0 rs).map (·.1)) :=
   scanDb_records rs trail h ht
 
-/-- (5b) `esl-afetch --index` succeeds iff names are pairwise distinct and accessions are pairwise distinct (otherwise
-    `esl_newssi_Write` reports the duplicate and the tool ends without an index) -/
+/-- (5b) `esl-afetch --index` succeeds iff all names and accessions TOGETHER are pairwise distinct — no name twice, no accession
+    twice, no accession that is also a name (e2f2f44) — otherwise `esl_newssi_Write` reports the duplicate and the tool ends
+    without an index -/
 theorem afetch_index_built_iff (fname : Msafile.Bytes) (rs : List SRec) (trail : List TLine) (h : DbOk fname rs trail) :
-    (createIndex fname (dbBytes rs trail)).isSome = true ↔ (rs.map SRec.name).Nodup ∧ (rs.filterMap SRec.acc).Nodup :=
+    (createIndex fname (dbBytes rs trail)).isSome = true ↔ (rs.map SRec.name ++ rs.filterMap SRec.acc).Nodup :=
   createIndex_isSome_iff fname rs trail h
 
 /-- (5c) FETCH = SCAN.  For every database of well-formed records and the index the tool itself built for it, fetching by name or
     by accession returns exactly the text of the alignment a sequential scan finds under that key (every line once, LF-terminated,
     skipped lines in front of its header included, nothing of the next alignment), and an absent key is `not found`.
-    `hcross` (no accession equals a name) excludes the C06 known finding `C06:cross-class-duplicate`. -/
+    No side condition on the keys: an index exists only when all names and accessions are distinct (`afetch_index_built_iff`;
+    the former hypothesis "no accession equals a name" went with the C06 repair e2f2f44). -/
 theorem afetch_eq_scan (fname : Msafile.Bytes) (rs : List SRec) (trail : List TLine) (h : DbOk fname rs trail) (ssi : Msafile.Bytes)
-    (hc : createIndex fname (dbBytes rs trail) = some ssi)
-    (hcross : ∀ r ∈ rs, ∀ r' ∈ rs, r.acc ≠ some r'.name) (key : Msafile.Bytes) :
+    (hc : createIndex fname (dbBytes rs trail) = some ssi) (key : Msafile.Bytes) :
     onefetch (dbBytes rs trail) ssi key = match seqFetch rs key with | some t => .ok t | none => .notfound :=
-  onefetch_eq_seqFetch fname rs trail h ssi hc hcross key
+  onefetch_eq_seqFetch fname rs trail h ssi hc key
 
 /-- (5d) absent key ⇒ not found, never other data -/
 theorem afetch_absent_notfound (fname : Msafile.Bytes) (rs : List SRec) (trail : List TLine) (h : DbOk fname rs trail) (ssi : Msafile.Bytes)
-    (hc : createIndex fname (dbBytes rs trail) = some ssi)
-    (hcross : ∀ r ∈ rs, ∀ r' ∈ rs, r.acc ≠ some r'.name) (key : Msafile.Bytes)
+    (hc : createIndex fname (dbBytes rs trail) = some ssi) (key : Msafile.Bytes)
     (hk : ∀ r ∈ rs, r.name ≠ key ∧ r.acc ≠ some key) :
     onefetch (dbBytes rs trail) ssi key = .notfound := by
-  rw [onefetch_eq_seqFetch fname rs trail h ssi hc hcross key]
+  rw [onefetch_eq_seqFetch fname rs trail h ssi hc key]
   have : seqFetch rs key = none := by
     unfold seqFetch
     rw [Option.map_eq_none_iff, List.find?_eq_none]
@@ -358,7 +356,7 @@ example : DbOk [100, 98] [exA, exB] [([35, 32, 99], [10])] := by
       rw [e] at ha; cases ha
 
 example : exA.name = [111, 110, 101] ∧ exA.acc = some [80, 70, 49] ∧ exB.name = [116, 119, 111] ∧ exB.acc = none := by decide
-example : ∀ r ∈ [exA, exB], ∀ r' ∈ [exA, exB], r.acc ≠ some r'.name := by decide
+example : ([exA, exB].map SRec.name ++ [exA, exB].filterMap SRec.acc).Nodup := by decide
 /-- the scan finds `exA` under its accession, with the blank line in front and the indented terminator, LF-normalised -/
 example : seqFetch [exA, exB] [80, 70, 49] = some (linesText exA.lines) ∧ seqFetch [exA, exB] [80, 70] = none := by decide
 /-- the executable model on that database: the index is built, and the fetch by accession returns that text -/
